@@ -15,7 +15,11 @@ pub const BUDGET_BYTES: u64 = 1 << 30;
 pub const IDLE_BYTES: u64 = 768 << 20;
 
 pub fn limit_address_space() {
-    let lim = libc::rlimit { rlim_cur: BUDGET_BYTES + IDLE_BYTES, rlim_max: BUDGET_BYTES + IDLE_BYTES };
+    // C03 judges allocations: 1 GiB beyond the idle footprint. The other worker-based checks only need isolation from
+    // aborts; their own bookkeeping (thousands of traced encodings per message in the thorough tier) must not be
+    // mistaken for a library allocation failure, so they get a wide limit.
+    let budget = std::env::var("VERIF_WORKER_BUDGET_MIB").ok().and_then(|v| v.parse::<u64>().ok()).map(|m| m << 20).unwrap_or(BUDGET_BYTES);
+    let lim = libc::rlimit { rlim_cur: budget + IDLE_BYTES, rlim_max: budget + IDLE_BYTES };
     unsafe {
         libc::setrlimit(libc::RLIMIT_AS, &lim);
         // no core files
